@@ -294,8 +294,9 @@ class SVGImage:
 def get_image_from_uri(cache, url_fetcher, options, url, forced_mime_type=None,
                        context=None, orientation='from-image'):
     """Get an Image instance from an image URI."""
-    if url in cache:
-        return cache[url]
+    key = f'{url} {orientation}'
+    if key in cache:
+        return cache[key]
 
     try:
         with fetch(url_fetcher, url) as result:
@@ -336,7 +337,7 @@ def get_image_from_uri(cache, url_fetcher, options, url, forced_mime_type=None,
                     raise ImageLoadingError.from_exception(raster_exception)
             else:
                 # Store image id to enable cache in Stream.add_image
-                image_id = md5(url.encode(), usedforsecurity=False).hexdigest()
+                image_id = md5(key.encode(), usedforsecurity=False).hexdigest()
                 image = RasterImage(
                     pillow_image, image_id, string, filename, cache,
                     orientation, options)
@@ -346,7 +347,7 @@ def get_image_from_uri(cache, url_fetcher, options, url, forced_mime_type=None,
         LOGGER.debug('Error while loading image:', exc_info=exception)
         image = None
 
-    cache[url] = image
+    cache[key] = image
     return image
 
 
